@@ -568,6 +568,20 @@ pub fn run<S: Scenario>(cfg: &RunCfg) -> i32 {
         exit = 1;
     }
 
+    // A batch in which many runs were skipped (the yardstick itself failed, a precondition could
+    // not be met, …) has not exercised the property: say so loudly instead of reporting "held".
+    if exit == 0 && tot.runs >= 200 {
+        for (reason, n) in &tot.skipped {
+            if *n * 20 > tot.runs {
+                eprintln!(
+                    "harness error: {n} of {} runs were skipped ({reason}): on this tree the workload no longer exercises property {}; no verdict",
+                    tot.runs,
+                    S::ID
+                );
+                exit = 2;
+            }
+        }
+    }
     let wall = t0.elapsed().as_secs_f64();
     // samples: re-execute with logging
     let mut samples = Vec::new();
